@@ -46,6 +46,14 @@ pub enum Arg {
     WordNonZero,
     /// one word in 0..=max
     UpTo(u64),
+    /// n limbs, odd, top limb in [0.42, 0.495) * 2^64: one leading zero bit, so that an almost-
+    /// Montgomery ladder can leave its loop at or above 2m
+    OddBand(usize),
+    /// one word: a 12-bit exponent; half of the draws are searched (with an oracle-side model of the
+    /// almost-Montgomery ladder) so that the accumulator of `BoxedMontyForm::pow_bounded_exp(.., 12)`
+    /// for the referenced base (already reduced, ordinary representation) and modulus leaves the loop
+    /// at or above 2m, i.e. the second final subtraction is needed
+    ExpDoubleReduction { base: Ref, modulus: Ref },
     /// 0 or 1
     Bit,
 }
@@ -53,7 +61,7 @@ pub enum Arg {
 impl Arg {
     pub fn limbs(&self) -> usize {
         match self {
-            Arg::Any(n) | Arg::NonZero(n) | Arg::Odd(n) | Arg::OddGe3(n) | Arg::Below(n, _) | Arg::Signed(n) | Arg::SignedNonZero(n) | Arg::TwoPowMinus(n, _) => *n,
+            Arg::Any(n) | Arg::NonZero(n) | Arg::Odd(n) | Arg::OddGe3(n) | Arg::OddBand(n) | Arg::Below(n, _) | Arg::Signed(n) | Arg::SignedNonZero(n) | Arg::TwoPowMinus(n, _) => *n,
             _ => 1,
         }
     }
@@ -1072,6 +1080,21 @@ fn boxed_ops(v: &mut Vec<Op>, n: usize, heavy: bool) {
     op!(v, "boxed-encoding", nm("to+from be/le bytes"), [Arg::Any(n)], [], bytes);
 
     if heavy {
+        #[inline(never)]
+        fn monty_pow12(i: &Inputs) {
+            let params = BoxedMontyParams::new_vartime(Odd::new(bx(&i.p[0])).unwrap());
+            let a = BoxedMontyForm::new(bx(&i.s[0]), params);
+            sink(a.pow_bounded_exp(&bx(&i.s[1]), 12).retrieve());
+        }
+        op!(
+            v,
+            "monty-pow",
+            format!("boxed-monty/pow_bounded_exp(12 bits; ladder result >= 2m for half of the exponents)/{n} limbs"),
+            [Arg::Below(n, Ref::P(0)), Arg::ExpDoubleReduction { base: Ref::S(0), modulus: Ref::P(0) }],
+            [Arg::OddBand(n)],
+            monty_pow12
+        );
+
         #[inline(never)]
         fn monty_pow(i: &Inputs) {
             let params = BoxedMontyParams::new_vartime(Odd::new(bx(&i.p[0])).unwrap());
